@@ -95,6 +95,19 @@ template<int Depth, class X> void explore(X&& x, std::string const& path, bool a
 		if constexpr(!std::is_lvalue_reference_v<X>) { (void)0; } }
 }
 
+// ---- projections (element_transformed with a reference-yielding functor, member_cast, reinterpret_array_cast) applied to read-only handles: the projected view is read-only too
+struct S2 { int a; int b; };
+template<class H, class P> void proj_fact(H&& h, P proj, char const* hname, char const* pname, bool expect_readonly) {
+	if constexpr(std::is_invocable_v<P, H&&>) { using E = decltype(down(proj(std::forward<H>(h)))); constexpr bool writable = std::is_assignable_v<E, int>; count("projection_facts"); count(std::string("projection:") + pname);
+		if(expect_readonly && writable) violation(std::string("C16:writable-through-const:projection:") + pname + ":" + hname, std::string("a modifiable element reference is reachable through ") + pname + " applied to " + hname, false);
+		if(!expect_readonly && !writable) violation(std::string("C16:mutable-path-not-writable:projection:") + pname + ":" + hname, std::string(pname) + " of " + hname + " is not writable", false); }
+	else { count(std::string("not-applicable:projection:") + pname + ":" + hname); }
+}
+template<class H> void proj_facts(H&& h, char const* hname, bool ro) {
+	proj_fact(std::forward<H>(h), [](auto&& x) -> decltype(std::forward<decltype(x)>(x).element_transformed(&S2::a)) { return std::forward<decltype(x)>(x).element_transformed(&S2::a); }, hname, "element_transformed(&S::a)", ro);
+	proj_fact(std::forward<H>(h), [](auto&& x) -> decltype(std::forward<decltype(x)>(x).template member_cast<int>(&S2::a)) { return std::forward<decltype(x)>(x).template member_cast<int>(&S2::a); }, hname, "member_cast<int>(&S::a)", ro);
+}
+
 int main(int argc, char** argv) {
 	return main_loop(argc, argv, [&](Case& c) {
 		if(c.k != 0) return;  // one case: the whole (finite) path space of this (D, root kind) is enumerated
@@ -153,6 +166,15 @@ int main(int argc, char** argv) {
 #endif
 			if(!std::is_assignable_v<decltype(down(tv)), int>) violation("C16:mutable-path-not-writable:transformed-view", "element_transformed(&S::member) of a mutable array is not writable", false);
 			else { down(tv) = 41; if(AS.elements()[0].a != 41) violation("C16:write-does-not-land:transformed-view", "a write through element_transformed(&S::member) did not land in the member", false); }
+		}
+		{	// projections of read-only handles (every constness / value category a read-only view can have) stay read-only; of mutable handles, writable
+			multi::array<S2, RD> MA(exts, S2{1, 2}); auto const& CA = MA;
+			proj_facts(CA, "const array", true); proj_facts(MA, "mutable array", false); proj_facts(MA(), "mutable view (prvalue)", false); proj_facts(CA(), "read-only view (prvalue)", true);
+			{ auto&& nv = CA(); proj_facts(nv, "read-only view (named, not const-qualified)", true); proj_facts(std::as_const(nv), "read-only view (const-qualified)", true); proj_facts(std::move(nv), "read-only view (xvalue)", true); }
+			{ auto&& mv = MA(); proj_facts(std::as_const(mv), "mutable-type view (const-qualified)", true); }
+#if C16_D >= 2
+			proj_facts(CA[0], "row of const array (prvalue)", true); { auto&& row = CA[0]; proj_facts(row, "row of const array (named)", true); } proj_facts(CA.rotated(), "rotated() of const array", true); proj_facts(MA[0], "row of mutable array", false);
+#endif
 		}
 		{	// assignment to a view / array_ref assigns elements: it never rebinds or resizes the left-hand side
 			std::vector<int> b1(std::size_t(n), 1), b2(std::size_t(n), 2); for(L i = 0; i < n; ++i) b2[std::size_t(i)] = int(100 + i);
